@@ -67,10 +67,16 @@ impl fmt::Debug for PoolInner {
 impl PoolInner {
     #[cfg_attr(test, mutants::skip)] // Removing this causes timeouts (workers never start)
     pub(crate) fn ensure_workers_spawned(self: &Arc<Self>, processor_id: ProcessorId) {
+        #[cfg(folo_verif)]
+        crate::verif::sim_point("ensure:begin");
+
         // If the pool is shutting down, we should not spawn new workers.
         if self.shutdown.load(Ordering::Relaxed) {
             return;
         }
+
+        #[cfg(folo_verif)]
+        crate::verif::sim_point("ensure:after-shutdown-check");
 
         let state = self.registry.get_or_init(processor_id);
 
@@ -86,6 +92,9 @@ impl PoolInner {
         if already_spawned {
             return;
         }
+
+        #[cfg(folo_verif)]
+        crate::verif::sim_point("ensure:after-cas");
 
         let workers_count = self.workers_per_processor.get();
         let mut new_handles = Vec::with_capacity(workers_count as usize);
@@ -139,6 +148,9 @@ impl PoolInner {
             hook();
         }
 
+        #[cfg(folo_verif)]
+        crate::verif::sim_point("ensure:post-spawn");
+
         let mut worker_handles = self.worker_handles.lock().expect(NEVER_POISONED);
 
         // Re-check shutdown flag under the lock to avoid race condition where
@@ -168,8 +180,14 @@ impl PoolInner {
         // when it acquires the lock.
         self.shutdown.store(true, Ordering::Release);
 
+        #[cfg(folo_verif)]
+        crate::verif::sim_point("join:after-flag");
+
         // Signal all existing workers to exit.
         self.registry.signal_shutdown_all();
+
+        #[cfg(folo_verif)]
+        crate::verif::sim_point("join:after-signal");
 
         // We take the handles out of the mutex, ensuring that no other thread can
         // access them. Because we set the shutdown flag above, we know that
@@ -184,6 +202,9 @@ impl PoolInner {
         // pool (for example to spawn additional workers) sees the shutdown flag and
         // exits without touching the now-empty handle list.
         let handles = mem::take(&mut *self.worker_handles.lock().expect(NEVER_POISONED));
+
+        #[cfg(folo_verif)]
+        crate::verif::sim_point("join:after-take");
 
         for handle in handles {
             if let Err(payload) = handle.join() {
@@ -229,6 +250,9 @@ fn worker_loop(inner: &PoolInner, processor_id: ProcessorId, worker_index: u32) 
                 break;
             }
             IterationResult::WaitingForWork => {
+                #[cfg(folo_verif)]
+                crate::verif::sim_point("worker:before-listen");
+
                 listener!(state.wake_event => listener);
 
                 // Re-check after registering listener to avoid lost wakeups.
@@ -239,6 +263,9 @@ fn worker_loop(inner: &PoolInner, processor_id: ProcessorId, worker_index: u32) 
                 {
                     continue;
                 }
+
+                #[cfg(folo_verif)]
+                crate::verif::sim_point("worker:before-wait");
 
                 listener.wait();
             }
